@@ -358,8 +358,14 @@ func verifStageCase(tmp string, caseNo int, ops []vsOp) string {
 			e.settle()
 			w.WriteString(" " + e.snapshot())
 		case "AG":
-			old := time.Now().Add(-25 * time.Hour)
+			// more than a day old, and at a LATER time of day than now (so that a range of days that
+			// starts there and ends now does not end on a whole number of days); the companion ages
+			// with the partial, as it does when a transfer stalls
+			now := time.Now().UTC()
+			midnight := time.Date(now.Year(), now.Month(), now.Day(), 0, 0, 0, 0, time.UTC).Add(24 * time.Hour)
+			old := now.Add(-48 * time.Hour).Add(midnight.Sub(now) / 2)
 			os.Chtimes(filepath.Join(e.stageDir, op.name+partExt), old, old)
+			os.Chtimes(filepath.Join(e.stageDir, op.name+compExt), old, old)
 			w.WriteString(" -")
 		case "AA":
 			// op.num seconds pass (a multiple of a day): everything the receiver remembers or has
@@ -675,6 +681,28 @@ func verifStageMatrix2(r *gen.Rand) []vsOp {
 		recv(f, 0, len(f.content))
 	}
 	names := [][2]string{{"site/data.bin", "site/next.bin"}, {"a", "b"}, {"g.1", "g.2"}, {"d/e/x", "d/y"}}[r.Intn(4)]
+	if r.Chance(1, 5) {
+		// (e) a stalled partial from an earlier day (later time of day than now) survives a restart:
+		// the range of log days read back starts there; what was delivered TODAY must still be known
+		E := mk(names[0], "", 2+r.Intn(8))
+		G := mk(names[1], "", 4+r.Intn(8))
+		whole(E)
+		ops = append(ops, vsOp{kind: "ST"})
+		prep(G)
+		recv(G, 0, len(G.content)/2)
+		ops = append(ops, vsOp{kind: "AG", name: G.name}, vsOp{kind: "RS"})
+		if r.Chance(1, 2) {
+			ops = append(ops, vsOp{kind: "RQ", parts: []vsPart{part(E, 0, len(E.content))}})
+		}
+		if r.Chance(1, 2) {
+			ops = append(ops, vsOp{kind: "SQ", name: E.name, num: -3600})
+		}
+		whole(E) // late retransmission of the delivered version
+		ops = append(ops, vsOp{kind: "ST"})
+		recv(G, len(G.content)/2, len(G.content))
+		ops = append(ops, vsOp{kind: "ST"})
+		return ops
+	}
 	if r.Chance(1, 4) {
 		// (d) the staged partial is tampered with between two parts: grown by a tail, cut short,
 		// zeroed - then the remaining parts arrive and the file is complete by the record
